@@ -34,6 +34,15 @@ POOL = [
     "Either.A",
     "[Either]@val",
     "{e: _}",
+    # literals made only of ** operands whose first operand is a built-in object; digest of built-ins
+    "{**Int, **{zzfoo: 1}}.zzfoo.p; {**Str, **{zzbar: 2}, **{zzbaz: 3}}.zzbaz.p; %{**Arr, **{zzqux: 1}}.len.p",
+    "[1.try.zzfoo.A, \"a\".try.zzbar.A, Int['zzfoo], Str['zzbaz], Int.keys.len, Str.keys.len].p",
+    "Str.digest([['zzshout, 1]])['zzshout].p; Int.digest([['zzdig, 2]]).keys.len.p; Obj.digest([['zzobj, 3]])['zzobj].p",
+    "[\"a\".try.zzshout.A, 1.try.zzdig.A, {}.try.zzobj.A].p",
+    # every way to get at a value stored in a built-in object (the shared NotImplemented placeholder among them)
+    "Either.values[0]", "Either.items[0][1]", "Either@{|k, v| v}", "[Either.values, 1][1].p; Either.values.len.p", "Either.A.try.A", "Either['A]",
+    "Wrappable.values", "EitherVal.values.len.p; EitherErr.items.len.p", "Either.O.values[0]", "Either.M.values[0]", "%{**Either}.values[0]", "{**Either}.A",
+    "[Either]@{|e| e.values[0]}", "Either.callProp(Either, 'A)", "Either.which('A).A", "Either.bear.A", "Either.try.A.A",
     # programs that are files next to a helper module of their own (same spelling ./helper, different files)
     ("m := import(\"./helper\"); [m.name, m.cnt.next, m.cnt.next, m.keys].p", "name := \"helper of a\"; name.p; cnt := <{|i| yield i; recur(i + 1)}>.new(0)"),
     ("m := import(\"./helper\"); m.name.p; import(\"./helper\").keys.p", "name := \"helper of b\"; other := 2; \"loading b\".p"),
